@@ -23,9 +23,16 @@ const (
 	rStale    = "STALE"
 	rSymlink  = "SYMLINK"
 	rXDev     = "XDEV"
+	rInval    = "INVAL"
+	rNXIO     = "NXIO"
 	rIO       = "IO"       // Virtual* calls: lazy initialisation / allocator / symlink factory failed
 	rFetchErr = "FETCHERR" // worker-facing calls: the fetcher's error is passed through
 	rLazyFail = "LAZYFAIL" // model-internal; translated per API family
+	// rLazyCollide (model-internal): the fetcher succeeded but two of the
+	// names it returned collide under the normaliser; Virtual* calls answer
+	// EIO, worker-facing calls pass the InvalidArgument error on.
+	rLazyCollide = "LAZYCOLLIDE"
+	rInvalidArg  = "INVALIDARG"
 )
 
 type mNode struct {
@@ -70,10 +77,19 @@ type mEnt struct {
 type mModel struct {
 	caseFold bool
 	hiddenOn bool
-	nextID   int
-	nextEID  int
-	tick     int
-	root     *mNode
+	// internSymlinks: the NFS handle allocator hands out ONE node object for
+	// all symlinks that have the same target for as long as that node is
+	// linked somewhere (nfsStatelessHandleAllocation.AsLinkableLeaf: "Reuse
+	// an existing leaf if one exists"); the FUSE one creates a node per
+	// creation (with an inode number that is a function of the target).
+	internSymlinks bool
+	nextID         int
+	nextEID        int
+	tick           int
+	root           *mNode
+	// needFail: why the last need() that returned false failed (rLazyFail or
+	// rLazyCollide).
+	needFail string
 	// Per call bookkeeping, reset by beginCall().
 	changed map[*mNode]bool // entry set changed
 	inited  map[*mNode]bool // went from uninitialised to initialised
@@ -82,8 +98,8 @@ type mModel struct {
 	leaves []*mNode
 }
 
-func newModel(caseFold, hiddenOn bool) *mModel {
-	m := &mModel{caseFold: caseFold, hiddenOn: hiddenOn, changed: map[*mNode]bool{}, inited: map[*mNode]bool{}}
+func newModel(caseFold, hiddenOn, internSymlinks bool) *mModel {
+	m := &mModel{caseFold: caseFold, hiddenOn: hiddenOn, internSymlinks: internSymlinks, changed: map[*mNode]bool{}, inited: map[*mNode]bool{}}
 	m.root = m.newDir(nil)
 	return m
 }
@@ -116,6 +132,23 @@ func (m *mModel) newLeaf(kind string) *mNode {
 	m.nextID++
 	n := &mNode{id: m.nextID, kind: kind, nlink: 1, leafIdx: len(m.leaves)}
 	m.leaves = append(m.leaves, n)
+	return n
+}
+
+// newSymlink returns the node a symlink creation yields: under the NFS
+// handle allocator the node that is still linked under the same target (its
+// hidden link count goes up), otherwise a fresh node.
+func (m *mModel) newSymlink(target string) *mNode {
+	if m.internSymlinks {
+		for _, l := range m.leaves {
+			if l.kind == "symlink" && l.tag == target && l.nlink > 0 {
+				l.nlink++
+				return l
+			}
+		}
+	}
+	n := m.newLeaf("symlink")
+	n.tag = target
 	return n
 }
 
@@ -174,6 +207,12 @@ func (m *mModel) need(d *mNode) bool {
 		return true
 	}
 	if d.fetcher != nil && d.fetcher.failing {
+		m.needFail = rLazyFail
+		return false
+	}
+	if d.fetcher != nil && m.namesCollide(d.fetcher.spec.names()) {
+		// getContents() drops what was fetched and stays uninitialised.
+		m.needFail = rLazyCollide
 		return false
 	}
 	d.uninit = false
@@ -192,8 +231,7 @@ func (m *mModel) need(d *mNode) bool {
 				child = m.newLeaf("file")
 				child.content = []byte(c.Tag)
 			case "symlink":
-				child = m.newLeaf("symlink")
-				child.tag = c.Tag
+				child = m.newSymlink(c.Tag)
 			}
 			m.attach(d, c.Name, child)
 		}
@@ -202,6 +240,18 @@ func (m *mModel) need(d *mNode) bool {
 		delete(m.changed, d)
 	}
 	return true
+}
+
+// namesCollide: do two of the names become one under the normaliser?
+func (m *mModel) namesCollide(names []string) bool {
+	seen := map[string]bool{}
+	for _, n := range names {
+		if seen[m.norm(n)] {
+			return true
+		}
+		seen[m.norm(n)] = true
+	}
+	return false
 }
 
 // forceEmpty is what removeAllChildren() does to an uninitialised
@@ -292,7 +342,7 @@ func one(code string) []string { return []string{code} }
 
 func (m *mModel) opMkdir(d *mNode, name string) ([]string, *mNode) {
 	if !m.need(d) {
-		return one(rLazyFail), nil
+		return one(m.needFail), nil
 	}
 	if d.deleted {
 		return one(rNoEnt), nil
@@ -308,7 +358,7 @@ func (m *mModel) opMkdir(d *mNode, name string) ([]string, *mNode) {
 // opMknod: kind is "fifo", "socket", "symlink" or "blockdev".
 func (m *mModel) opMknod(d *mNode, name, kind, target string, symlinkFails bool) ([]string, *mNode) {
 	if !m.need(d) {
-		return one(rLazyFail), nil
+		return one(m.needFail), nil
 	}
 	var errs []string
 	if d.deleted {
@@ -327,15 +377,19 @@ func (m *mModel) opMknod(d *mNode, name, kind, target string, symlinkFails bool)
 	if len(errs) > 0 {
 		return errs, nil
 	}
-	child := m.newLeaf(kind)
-	child.tag = target
+	var child *mNode
+	if kind == "symlink" {
+		child = m.newSymlink(target)
+	} else {
+		child = m.newLeaf(kind)
+	}
 	m.attach(d, name, child)
 	return one(rOK), child
 }
 
 func (m *mModel) opLink(d *mNode, name string, leaf *mNode) []string {
 	if !m.need(d) {
-		return one(rLazyFail)
+		return one(m.needFail)
 	}
 	var errs []string
 	if d.deleted {
@@ -356,9 +410,10 @@ func (m *mModel) opLink(d *mNode, name string, leaf *mNode) []string {
 
 // opOpen models VirtualOpenChild. create: createAttributes given;
 // existing: existingOptions given.
-func (m *mModel) opOpen(d *mNode, name string, create, existing, truncate, exec, allocFails bool) ([]string, *mNode, bool) {
+// truncFails: the pool file's Truncate() fails (one-shot injected fault).
+func (m *mModel) opOpen(d *mNode, name string, create, existing, truncate, exec, allocFails, truncFails bool) ([]string, *mNode, bool) {
 	if !m.need(d) {
-		return one(rLazyFail), nil, false
+		return one(m.needFail), nil, false
 	}
 	if e := m.lookup(d, name); e != nil {
 		if !existing {
@@ -371,6 +426,9 @@ func (m *mModel) opOpen(d *mNode, name string, create, existing, truncate, exec,
 			return one(rSymlink), e.child, false
 		}
 		if truncate {
+			if truncFails {
+				return one(rIO), e.child, false
+			}
 			e.child.content = nil
 		}
 		return one(rOK), e.child, false
@@ -389,7 +447,7 @@ func (m *mModel) opOpen(d *mNode, name string, create, existing, truncate, exec,
 
 func (m *mModel) opVirtualRemove(d *mNode, name string, rmDir, rmLeaf bool) []string {
 	if !m.need(d) {
-		return one(rLazyFail)
+		return one(m.needFail)
 	}
 	e := m.lookup(d, name)
 	if e == nil {
@@ -400,7 +458,7 @@ func (m *mModel) opVirtualRemove(d *mNode, name string, rmDir, rmLeaf bool) []st
 			return one(rPerm)
 		}
 		if !m.need(e.child) {
-			return one(rLazyFail)
+			return one(m.needFail)
 		}
 		if !m.isDeletable(e.child) {
 			return one(rNotEmpty)
@@ -418,7 +476,7 @@ func (m *mModel) opVirtualRemove(d *mNode, name string, rmDir, rmLeaf bool) []st
 
 func (m *mModel) opRemoveAll(d *mNode, name string) []string {
 	if !m.need(d) {
-		return one(rLazyFail)
+		return one(m.needFail)
 	}
 	e := m.lookup(d, name)
 	if e == nil {
@@ -441,10 +499,17 @@ type mNewChild struct {
 // opCreateChildren: children must not collide under normalisation.
 func (m *mModel) opCreateChildren(d *mNode, children []mNewChild, overwrite bool) []string {
 	if !m.need(d) {
-		return one(rLazyFail)
+		return one(m.needFail)
 	}
 	if d.deleted {
 		return one(rNoEnt)
+	}
+	var names []string
+	for _, c := range children {
+		names = append(names, c.name)
+	}
+	if m.namesCollide(names) {
+		return one(rInvalidArg)
 	}
 	if !overwrite {
 		for _, c := range children {
@@ -477,7 +542,7 @@ func (m *mModel) opCreateChildren(d *mNode, children []mNewChild, overwrite bool
 
 func (m *mModel) opCreateAndEnter(d *mNode, name string) ([]string, *mNode) {
 	if !m.need(d) {
-		return one(rLazyFail), nil
+		return one(m.needFail), nil
 	}
 	if e := m.lookup(d, name); e != nil {
 		if e.child.dir {
@@ -499,10 +564,10 @@ func (m *mModel) opCreateAndEnter(d *mNode, name string) ([]string, *mNode) {
 
 func (m *mModel) opRename(dOld *mNode, oldName string, dNew *mNode, newName string) []string {
 	if !m.need(dOld) {
-		return one(rLazyFail)
+		return one(m.needFail)
 	}
 	if !m.need(dNew) {
-		return one(rLazyFail)
+		return one(m.needFail)
 	}
 	if eNew := m.lookup(dNew, newName); eNew != nil {
 		eOld := m.lookup(dOld, oldName)
@@ -517,7 +582,7 @@ func (m *mModel) opRename(dOld *mNode, oldName string, dNew *mNode, newName stri
 				return one(rOK)
 			}
 			if !m.need(eNew.child) {
-				return one(rLazyFail)
+				return one(m.needFail)
 			}
 			if !m.isDeletable(eNew.child) {
 				return one(rNotEmpty)
